@@ -32,8 +32,15 @@ type PCfg struct {
 }
 
 type PTxn struct {
-	Rcpts []string          `json:"rcpts"`
-	St    map[string]string `json:"st"`
+	Rcpts []string `json:"rcpts"`
+	St    PPlan    `json:"st"`
+}
+
+// PPlan: per-recipient results of a partial target, or the one Body result of an atomic target.
+type PPlan struct {
+	St     map[string]string `json:"st"`
+	Atomic bool              `json:"atomic"`
+	Body   string            `json:"body"`
 }
 
 type PBehaviour struct {
@@ -89,8 +96,8 @@ func runPipeBehaviour(t *testing.T, b PBehaviour, out *bufio.Writer) {
 		t.Fatalf("unknown scope %q", b.Cfg.Scope)
 	}
 
-	tgt := &scripted.NamedTarget{TName: "T1", Tr: tr, Partial: true, ID: pipeID,
-		Plan: []scripted.NPlan{{Status: b.Txn.St}}}
+	tgt := &scripted.NamedTarget{TName: "T1", Tr: tr, Partial: !b.Txn.St.Atomic, ID: pipeID,
+		Plan: []scripted.NPlan{{Status: b.Txn.St.St, Body: b.Txn.St.Body}}}
 	scripted.SetNamed(tgt)
 	nodes, err := parser.Read(strings.NewReader(sb.String()), "verif.conf")
 	if err != nil {
@@ -106,7 +113,8 @@ func runPipeBehaviour(t *testing.T, b PBehaviour, out *bufio.Writer) {
 	ctx := context.Background()
 	from := "sender@pipe.invalid"
 	meta := &module.MsgMetadata{ID: fmt.Sprintf("p%d", b.ID), OriginalFrom: from, SMTPOpts: smtp.MailOptions{}}
-	tr.Emit("Txn", vtrace.Ev{"rcpts": b.Txn.Rcpts, "st": b.Txn.St})
+	tr.Emit("Txn", vtrace.Ev{"rcpts": b.Txn.Rcpts, "st": map[string]interface{}{
+		"st": b.Txn.St.St, "atomic": b.Txn.St.Atomic, "body": b.Txn.St.Body}})
 	d, err := p.Start(ctx, meta, from)
 	if err != nil {
 		t.Fatalf("behaviour %d: Start failed: %v", b.ID, err)
